@@ -102,9 +102,15 @@ func main() {
 		var i, n int
 		fmt.Sscanf(sh, "%d/%d", &i, &n)
 		c := newCtx(id, tier, i, n)
+		// the result travels over the real stdout; code under test that prints (the test directory does) must not
+		// get in its way
+		realOut := os.Stdout
+		if dn, err := os.OpenFile(os.DevNull, os.O_WRONLY, 0); err == nil {
+			os.Stdout = dn
+		}
 		ck.Run(c)
 		out := shardOut{Counts: c.Counts, Outc: c.Outc, Viol: c.Viol, Samp: c.Samp, CapHit: c.CapHit}
-		json.NewEncoder(os.Stdout).Encode(out)
+		json.NewEncoder(realOut).Encode(out)
 		return
 	}
 	n := 1
